@@ -27,7 +27,11 @@ func body(sc scen) func() {
 		vsync.GoNamed("sendA", func() {
 			defer wg.Done()
 			for i := 0; i < sc.nmsg; i++ {
-				e.Send(sendCtx, "A", "B", "m"+string(rune('1'+i)))
+				ctx := sendCtx
+				if sc.fault == "cancel-first-send" && i > 0 {
+					ctx = e.Ctx // only the first send is cancelled by the fault thread
+				}
+				e.Send(ctx, "A", "B", "m"+string(rune('1'+i)))
 			}
 		})
 		vsync.GoNamed("recvB", func() {
@@ -47,7 +51,7 @@ func body(sc scen) func() {
 				defer wg.Done()
 				vsync.Yield("fault")
 				switch sc.fault {
-				case "cancel-send":
+				case "cancel-send", "cancel-first-send":
 					vsync.Logf("fault: cancel send")
 					cancelSend()
 				case "break-b":
@@ -72,7 +76,8 @@ func TestC21(t *testing.T) {
 	run := evid.Start("C21", "model_checking")
 	agg := mc.NewAgg(run)
 	bound := 1
-	scens := []scen{{"one-message", "", 1}, {"cancel-send", "cancel-send", 1}, {"break-b", "break-b", 1}, {"reattach-b", "reattach-b", 1}}
+	scens := []scen{{"one-message", "", 1}, {"cancel-send", "cancel-send", 1}, {"break-b", "break-b", 1}, {"reattach-b", "reattach-b", 1},
+		{"cancel-first-then-send-second", "cancel-first-send", 2}}
 	if !run.Quick() {
 		bound = 2
 		scens = append(scens, scen{"two-messages", "", 2}, scen{"break-a", "break-a", 1}, scen{"two-messages-break-b", "break-b", 2})
@@ -88,6 +93,67 @@ func TestC21(t *testing.T) {
 				return sigh.CheckAckImpliesDelivered(x.Log)
 			}}
 	}, func(v *vsync.Violation) string { return strings.Fields(v.What)[0] })
+	// S2: the real client against the reference relay, which may hold an
+	// acknowledgement back until the client's next request; the first send is
+	// cancelled by its caller at any point, then a second message is sent
+	s2 := []struct {
+		name      string
+		defers    int
+		quiescent bool // the caller cancels once everything else has come to rest (instead of at an arbitrary early point)
+	}{{"late-ack-after-cancelled-send", 1, false}, {"late-ack-after-send-cancelled-at-rest", 1, true}}
+	mc.RunScenarios(t, agg, len(s2), func(i int) *vsync.Config {
+		sc := s2[i]
+		return &vsync.Config{Name: "client-s2/" + sc.name, Bound: bound, Delay: true, Deadline: run.Deadline(), MaxStep: 20000, Horizon: 2 * time.Minute,
+			Body: func() {
+				s := sigh.NewS2(0, 0)
+				s.Relay.DeferAcks = sc.defers
+				ctx1, cancel1 := context.WithCancel(s.Ctx)
+				var wg vsync.WaitGroup
+				wg.Add(2)
+				vsync.GoNamed("sendA", func() {
+					defer wg.Done()
+					for i, ctx := range []context.Context{ctx1, s.Ctx} {
+						id := "m" + string(rune('1'+i))
+						if _, err := s.Ref.Send(ctx, []byte(id)); err == nil {
+							vsync.LogOrdered("send-ok A>B %s", id)
+						} else {
+							vsync.LogOrdered("send-err A>B %s", id)
+						}
+					}
+				})
+				vsync.GoNamed("canceller", func() {
+					defer wg.Done()
+					if sc.quiescent {
+						vsync.Quiesce()
+					} else {
+						vsync.Yield("cancel first send")
+					}
+					cancel1()
+				})
+				vsync.Quiesce()
+				time.Sleep(30 * time.Second)
+				vsync.Quiesce()
+				cancel1()
+				s.Shutdown()
+				wg.Wait()
+			},
+			Check: func(x *vsync.Exec) string {
+				if x.HorizonHit {
+					return ""
+				}
+				recvd := map[string]bool{}
+				for _, l := range x.Log {
+					if strings.HasPrefix(l, "relay: partner received ") {
+						recvd[strings.TrimPrefix(l, "relay: partner received ")] = true
+					}
+					if strings.HasPrefix(l, "send-ok A>B ") && !recvd[strings.TrimPrefix(l, "send-ok A>B ")] {
+						return "V21:send-acknowledged-before-delivery A>B " + strings.TrimPrefix(l, "send-ok A>B ")
+					}
+				}
+				return ""
+			}}
+	}, func(v *vsync.Violation) string { return strings.Fields(v.What)[0] })
+
 	// S1: acks and clears for messages that were never received, and for the right message
 	s1 := []sigh.Scen{
 		{"bogus-acks", [][]string{{"attach:a1:A:B", "wait", "send:a1:m1"}, {"attach:b1:B:A", "wait", "acke:b1:7:2", "cleare:b1:7:2"}}},
